@@ -492,6 +492,15 @@ def run_result(c, mods):
         elif n == "one":
             e = "E:MultipleResultsFound" if len(rest) > 1 else (rest[0] if rest else "E:NoResultFound")
             adv, closed = 0, True
+        elif n == "scalar":
+            e = ("s", rest[0][0]) if rest else None
+            adv, closed = 0, True
+        elif n == "scalar_one":
+            e = "E:MultipleResultsFound" if len(rest) > 1 else (("s", rest[0][0]) if rest else "E:NoResultFound")
+            adv, closed = 0, True
+        elif n == "scalar_one_or_none":
+            e = "E:MultipleResultsFound" if len(rest) > 1 else (("s", rest[0][0]) if rest else None)
+            adv, closed = 0, True
         else:
             raise ValueError(n)
         pos += adv
@@ -510,6 +519,9 @@ def run_result(c, mods):
                 g = cv(res.first())
             elif n == "one_or_none":
                 g = cv(res.one_or_none())
+            elif n in ("scalar", "scalar_one", "scalar_one_or_none"):
+                v = getattr(res, n)()
+                g = None if v is None else ("s", v)
             else:
                 g = cv(res.one())
             tok = canon(g)
@@ -660,13 +672,16 @@ def gen_cases(rng, n):
                     ops.append(["partitions", rng.choice([1, 2, 3])])
                 else:
                     ops.append([o])
+            if c.get("filter", ["none"])[0] in ("none", "columns") and rng.random() < 0.25:
+                ops.append([rng.choice(["scalar", "scalar_one", "scalar_one_or_none"])])
             if c.get("filter", ["none"])[0] == "scalars":
                 ops = [(["fetchmany", 1] if o[0] == "fetchone" else o) for o in ops]  # ScalarResult has no fetchone()
             if c["unique"]:
                 # after unique() only whole-stream or single-row accessors are compared with the reference;
                 # partial fetches followed by first()/one() are the known finding F17 of C10
-                if any(o[0] in ("first", "one", "one_or_none") for o in ops[1:]):
-                    ops = [o for o in ops if o[0] not in ("first", "one", "one_or_none")] or [["all"]]
+                single = ("first", "one", "one_or_none", "scalar", "scalar_one", "scalar_one_or_none")
+                if any(o[0] in single for o in ops[1:]):
+                    ops = [o for o in ops if o[0] not in single] or [["all"]]
             c["ops"] = ops
             out.append(c)
     return out
